@@ -19,6 +19,8 @@ import (
 	"strings"
 	"sync"
 	"time"
+
+	"github.com/versity/versitygw/verifhook"
 )
 
 // IAMCache is an in memory cache of the IAM accounts
@@ -139,6 +141,7 @@ func (c *IAMCache) CreateAccount(account Account) error {
 		return err
 	}
 
+	verifhook.At("iam.created", "access", account.Access)
 	// we need a copy of account to be able to store beyond the
 	// lifetime of the request, otherwise Fiber will reuse and corrupt
 	// these entries
@@ -157,6 +160,7 @@ func (c *IAMCache) CreateAccount(account Account) error {
 // result for the expire duration.
 func (c *IAMCache) GetUserAccount(access string) (Account, error) {
 	acct, found := c.iamcache.get(access)
+	verifhook.At("iam.lookup", "access", access)
 	if found {
 		return acct, nil
 	}
@@ -166,6 +170,7 @@ func (c *IAMCache) GetUserAccount(access string) (Account, error) {
 		return Account{}, err
 	}
 
+	verifhook.At("iam.fetched", "access", access)
 	c.iamcache.set(access, a)
 	return a, nil
 }
@@ -177,6 +182,7 @@ func (c *IAMCache) DeleteUserAccount(access string) error {
 		return err
 	}
 
+	verifhook.At("iam.deleted", "access", access)
 	c.iamcache.Delete(access)
 	return nil
 }
@@ -187,6 +193,7 @@ func (c *IAMCache) UpdateUserAccount(access string, props MutableProps) error {
 		return err
 	}
 
+	verifhook.At("iam.updated", "access", access)
 	c.iamcache.update(access, props)
 	return nil
 }
